@@ -18,15 +18,16 @@ for d in sorted(glob.glob('seeded/*/')):
     rows.append((name, what, needs, ', '.join(caught) or '-', ', '.join(missed) or '-'))
 out = []
 out.append("Each change below was written by a fresh sub-agent that saw only the property text and its own scratch")
-out.append("worktree (round 1: two changes per property, `<ID>-mK`; round 2: three more per property, `<ID>-r2mK`, with the")
-out.append("round-1 descriptions given as \"already delivered, find different ones\"). Each compiles, passes the unedited")
-out.append("198-test suite (confirmed by me in another scratch worktree with `tools/confirm_mutant.sh`: suite with the")
-out.append("patch, demonstration with the patch in debug and release, demonstration without it) and is kept under")
-out.append("`/verif/seeded/<name>/` (patch.diff, demo.rs, meta.json). \"caught by\" = quick tier of that check exits 1 with a")
-out.append("VIOLATION line against the patched tree (final version of the machinery, `tools/rerun_seeded.sh`); \"ran, silent\"")
-out.append("= checks of other properties that were also run and did not see it (expected where that property does not")
-out.append("cover the changed behaviour). Where a change first slipped past the check of its own property the check was")
-out.append("strengthened (section 11.2 lists what was added); the table shows the state after that.")
+out.append("worktree (round 1: two changes per property, `<ID>-mK`; rounds 2 and 3: three more per property each,")
+out.append("`<ID>-r2mK`, `<ID>-r3mK`, with the descriptions of the earlier rounds given as \"already delivered, find different")
+out.append("ones\"). Each compiles, passes the unedited 198-test suite (confirmed by me in another scratch worktree with")
+out.append("`tools/confirm_mutant.sh`: suite with the patch, demonstration with the patch in debug and release,")
+out.append("demonstration without it) and is kept under `/verif/seeded/<name>/` (patch.diff, demo.rs, meta.json). \"caught")
+out.append("by\" = quick tier of that check exits 1 with a VIOLATION line against a patched copy of /repo (`tools/")
+out.append("try_mutant_iso.sh`, `tools/rerun_seeded.sh`); \"ran, silent\" = checks that were also run and did not see it.")
+out.append("Where a change first slipped past the check of its own property the check was strengthened (section 11.2")
+out.append("lists what was added); the table shows the state after that. The notes after the table name the changes that")
+out.append("were rejected and the one that its own property's check is right not to see.")
 out.append("")
 out.append("| change | what it breaks | needs | caught by | ran, silent |")
 out.append("|---|---|---|---|---|")
